@@ -95,6 +95,17 @@ theorem remote_header_read_buffering_bounded (size : Nat) (frames : List Nat) :
     httpSingleTake size 0 frames ≤ size + Proofs.maxFrame frames :=
   Proofs.http_read_at_take_bounded size frames
 
+/-- **T2 (bounded memory per chunk).**  The decompressor of the code never hands on more than the size
+declared for the chunk, for *any* codec behaviour (`Gen.decompressOutputLimited`: the output limit
+is in the source, F11 repair), and a decoded chunk of any - untrusted - descriptor is no longer
+than the larger of its declared source size and the stored bytes: a compressed stream cannot
+choose how much memory the reader uses. -/
+theorem decoded_chunk_follows_declared_sizes (H : Bytes → Bytes) (raw : Nat → Bytes → Option Bytes)
+    (compr : Compr) (d : Descr) (stored chunk : Bytes)
+    (h : decodeChunk H (limitedDecomp raw) compr d stored = some chunk) :
+    chunk.length ≤ max d.sourceSize stored.length :=
+  Proofs.decodeChunk_bounded H (limitedDecomp raw) (Proofs.limitedDecomp_bounded raw) compr d stored chunk h
+
 /-- **T3.**  For *any* server behaviour (any bytes of any length for any range: surplus bytes,
 empty bodies, error pages), any failure script, any retry budget, and chunks of stored size ≥ 1
 (enforced at open), the HTTP chunk reader's stream contains no panic item - no underflow of the
@@ -141,7 +152,10 @@ taken -/
 example :
     ioReadAtCaps (List.replicate 100 7) 14 (2 ^ 62) [.bytes 60, .bytes 60, .bytes 60] =
       [(1048576, 0)] ∧
-    httpSingleTake 14 0 (List.replicate 1000 16381) = 16381 := by
+    httpSingleTake 14 0 (List.replicate 1000 16381) = 16381 ∧
+    -- a "codec" that expands 3 stored bytes to 5000: refused when 100 are declared, passed when 5000 are
+    limitedDecomp (fun _ _ => some (List.replicate 5000 0)) 3 [1, 2, 3] 100 = none ∧
+    (limitedDecomp (fun _ _ => some (List.replicate 5000 0)) 3 [1, 2, 3] 5000).isSome = true := by
   decide +kernel
 
 end Bita.Props.C15
